@@ -33,7 +33,11 @@ RULE = ("correspondence: every menu estimator is fitted with attribute assignmen
         "have been assigned during that fit, and every observed assignment must be predicted. search: histories "
         "fit(A); observers; fit(B); observers vs a fresh instance fit(B); observers, for pairs of training sets of "
         "different sizes / dimensions / label sets under identical seeds; two fits under the same global seed; "
-        "integer random_state under two different global seeds. Non-trivial = both fits succeeded")
+        "integer random_state (Python and NumPy integers) under two different global seeds; the same histories with a "
+        "FAILING fit before each fit, under source-driven configurations (_guided) and with a change of hyper-parameters "
+        "between the fits (every public method observed); fitted attributes unchanged by calling every public method; "
+        "the array objects of an earlier fit unchanged by a refit; a fresh instance fitted at the start and at the end "
+        "of the search. Non-trivial = both fits succeeded")
 LEVEL_TEXT = ("Proof: (two-run form) for every accepted fit skeleton, running it with the same inputs from any prior "
               "attribute state and from a fresh state ends the same way and gives the same value to every attribute an "
               "observer can read (`refit_is_fresh_fit`, via a lockstep theorem for pair executions); (taint form) a definite-rewrite / no-stale-read analysis over the control-flow IR is proved sound in Lean for "
